@@ -218,6 +218,320 @@ def printer_attrs(m, base):
                             and isinstance(x.ctx, ast.Load)}
     return out
 
+IMMUTABLE_TYPE_NAMES = {"str", "int", "float", "bool", "bytes", "complex", "NoneType", "frozenset"}
+
+
+class Undecided(Exception):
+    pass
+
+
+class DeepcopyFlow:
+    """Decides a hand-written `__deepcopy__(self, memo)` by a small may-share analysis.  A value is *original* when it is (part of) the
+    state of `self`; it becomes clean by `copy.deepcopy(<value>, memo)` or under a test that proves it immutable (isinstance with only
+    immutable builtin types, `is None`).  A finding is an original value stored into the object that is returned; a deepcopy of state
+    before `memo[id(self)]` is set is the second finding (every child's .parent leads back to self)."""
+
+    def __init__(self, func):
+        self.f = func
+        ps = [a.arg for a in func.args.args]
+        if len(ps) != 2:
+            raise Undecided("signature")
+        self.me, self.memo = ps
+        self.new = set()
+        self.memo_set = False
+        self.findings = []      # (kind, node, text)
+        self.sinks = 0
+        self.copies = 0
+
+    # ---- expressions
+    def is_deepcopy(self, c):
+        d = A.dotted(c.func) or ""
+        return d in ("copy.deepcopy", "deepcopy") and len(c.args) == 2 and isinstance(c.args[1], ast.Name) and c.args[1].id == self.memo
+
+    def taint(self, e, env):
+        if e is None or isinstance(e, ast.Constant):
+            return False
+        if isinstance(e, ast.Name):
+            if e.id == self.me:
+                return True
+            return env.get(e.id, False)
+        if isinstance(e, ast.Attribute):
+            return self.taint(e.value, env)
+        if isinstance(e, ast.Subscript):
+            return self.taint(e.value, env)
+        if isinstance(e, ast.Starred):
+            return self.taint(e.value, env)
+        if isinstance(e, (ast.Tuple, ast.List, ast.Set)):
+            return any(self.taint(x, env) for x in e.elts)
+        if isinstance(e, ast.Dict):
+            return any(self.taint(x, env) for x in e.values if x is not None)
+        if isinstance(e, ast.IfExp):
+            et, ef = self.narrow(e.test, env)
+            return self.taint(e.body, et) or self.taint(e.orelse, ef)
+        if isinstance(e, (ast.GeneratorExp, ast.ListComp, ast.SetComp, ast.DictComp)):
+            env2 = dict(env)
+            for g in e.generators:
+                self.bind(g.target, self.taint(g.iter, env2), env2)
+                for c in g.ifs:
+                    env2, _ = self.narrow(c, env2)
+            if isinstance(e, ast.DictComp):
+                return self.taint(e.value, env2)
+            return self.taint(e.elt, env2)
+        if isinstance(e, ast.Call):
+            if self.is_deepcopy(e):
+                self.copies += 1
+                if not self.memo_set and self.taint(e.args[0], env):
+                    self.findings.append(("memo-late", e, A.text(e)))
+                return False
+            d = A.dotted(e.func) or ""
+            if d in ("copy.deepcopy", "deepcopy", "copy.copy"):
+                raise Undecided("a copy call without the memo: %s" % A.text(e))
+            if d in ("id", "isinstance", "len", "type", "hasattr", "issubclass", "str", "repr", "int"):
+                return False
+            if d in ("list", "tuple", "dict", "set", "vars", "iter", "enumerate", "zip", "reversed", "sorted", "getattr") or \
+                    (isinstance(e.func, ast.Call) and (A.dotted(e.func.func) or "") == "type"):
+                return any(self.taint(a, env) for a in e.args)
+            if isinstance(e.func, ast.Attribute) and e.func.attr in ("items", "values", "copy", "get", "keys") and not e.keywords:
+                return self.taint(e.func.value, env)
+            if d.endswith(".__new__"):
+                return False
+            if any(self.taint(a, env) for a in list(e.args) + [k.value for k in e.keywords]) or \
+                    (isinstance(e.func, ast.Attribute) and self.taint(e.func.value, env)):
+                raise Undecided("original state is passed to %s" % A.text(e.func))
+            return False
+        if isinstance(e, (ast.BinOp,)):
+            return self.taint(e.left, env) or self.taint(e.right, env)
+        if isinstance(e, (ast.Compare, ast.BoolOp, ast.UnaryOp, ast.JoinedStr)):
+            return False
+        raise Undecided("expression %s" % type(e).__name__)
+
+    def bind(self, target, t, env):
+        if isinstance(target, ast.Name):
+            env[target.id] = t
+        elif isinstance(target, (ast.Tuple, ast.List)):
+            for x in target.elts:
+                self.bind(x, t, env)
+        elif isinstance(target, ast.Starred):
+            self.bind(target.value, t, env)
+
+    def immutable_types(self, tnode):
+        elts = tnode.elts if isinstance(tnode, ast.Tuple) else [tnode]
+        names = []
+        for x in elts:
+            tx = A.text(x)
+            if tx == "type(None)":
+                tx = "NoneType"
+            names.append(tx)
+        return bool(names) and all(n in IMMUTABLE_TYPE_NAMES for n in names)
+
+    def narrow(self, test, env):
+        """(environment when the test holds, environment when it does not)"""
+        et, ef = dict(env), dict(env)
+        if isinstance(test, ast.UnaryOp) and isinstance(test.op, ast.Not):
+            a, b = self.narrow(test.operand, env)
+            return b, a
+        if isinstance(test, ast.Call) and A.dotted(test.func) == "isinstance" and len(test.args) == 2 and isinstance(test.args[0], ast.Name):
+            if self.immutable_types(test.args[1]):
+                et[test.args[0].id] = False
+        if isinstance(test, ast.Compare) and len(test.ops) == 1 and isinstance(test.left, ast.Name) and A.const(test.comparators[0], 1) is None:
+            if isinstance(test.ops[0], ast.Is):
+                et[test.left.id] = False
+            if isinstance(test.ops[0], ast.IsNot):
+                ef[test.left.id] = False
+        if isinstance(test, ast.BoolOp) and isinstance(test.op, ast.Or):
+            # the false side of `a or b` is the false side of both
+            for v in test.values:
+                _, f2 = self.narrow(v, ef)
+                ef = f2
+        if isinstance(test, ast.BoolOp) and isinstance(test.op, ast.And):
+            for v in test.values:
+                t2, _ = self.narrow(v, et)
+                et = t2
+        return et, ef
+
+    # ---- statements
+    def is_new_target(self, t):
+        """`new.attr`, `new.__dict__[k]`"""
+        if isinstance(t, ast.Attribute) and isinstance(t.value, ast.Name) and t.value.id in self.new:
+            return True
+        if isinstance(t, ast.Subscript) and isinstance(t.value, ast.Attribute) and t.value.attr == "__dict__" \
+                and isinstance(t.value.value, ast.Name) and t.value.value.id in self.new:
+            return True
+        return False
+
+    def sink(self, value, env, node):
+        self.sinks += 1
+        if self.taint(value, env):
+            self.findings.append(("shared", node, A.text(value)))
+
+    def block(self, body, env):
+        for s in body:
+            env = self.stmt(s, env)
+        return env
+
+    def stmt(self, s, env):
+        if isinstance(s, ast.Expr):
+            v = s.value
+            if isinstance(v, ast.Constant):
+                return env
+            if isinstance(v, ast.Call):
+                d = A.dotted(v.func) or ""
+                if d == "setattr" and len(v.args) == 3 and isinstance(v.args[0], ast.Name) and v.args[0].id in self.new:
+                    self.sink(v.args[2], env, s)
+                    return env
+                if isinstance(v.func, ast.Attribute) and v.func.attr == "update" and A.text(v.func.value).split(".")[0] in self.new:
+                    for a in v.args:
+                        self.sink(a, env, s)
+                    return env
+                if isinstance(v.func, ast.Attribute) and v.func.attr in ("append", "extend", "add") and isinstance(v.func.value, ast.Name):
+                    # a local container that is filled: it carries what is put into it
+                    env = dict(env)
+                    env[v.func.value.id] = env.get(v.func.value.id, False) or any(self.taint(a, env) for a in v.args)
+                    return env
+                self.taint(v, env)
+                return env
+            raise Undecided("statement %s" % A.text(s)[:60])
+        if isinstance(s, (ast.Assign, ast.AnnAssign)):
+            targets = s.targets if isinstance(s, ast.Assign) else [s.target]
+            value = s.value
+            env = dict(env)
+            for t in targets:
+                if isinstance(t, ast.Subscript) and isinstance(t.value, ast.Name) and t.value.id == self.memo:
+                    if A.text(t.slice) == "id(%s)" % self.me:
+                        self.memo_set = True
+                    continue
+                if self.is_new_target(t):
+                    self.sink(value, env, s)
+                    continue
+                if isinstance(t, ast.Name):
+                    if isinstance(value, ast.Call) and (A.dotted(value.func) or "").endswith("__new__") or \
+                            (isinstance(value, ast.Call) and isinstance(value.func, ast.Attribute) and value.func.attr == "__new__"):
+                        self.new.add(t.id)
+                        env[t.id] = False
+                    else:
+                        env[t.id] = self.taint(value, env)
+                    continue
+                if isinstance(t, (ast.Tuple, ast.List)):
+                    self.bind(t, self.taint(value, env), env)
+                    continue
+                if isinstance(t, ast.Subscript) and isinstance(t.value, ast.Name):
+                    env[t.value.id] = env.get(t.value.id, False) or self.taint(value, env)
+                    continue
+                raise Undecided("assignment to %s" % A.text(t))
+            return env
+        if isinstance(s, ast.For):
+            env = dict(env)
+            self.bind(s.target, self.taint(s.iter, env), env)
+            # two rounds reach the fixed point of a may-analysis over booleans joined by `or`
+            e1 = self.block(s.body, env)
+            e2 = self.block(s.body, self.join(env, e1))
+            return self.join(env, self.join(e1, self.block(s.orelse, e2)))
+        if isinstance(s, ast.If):
+            et, ef = self.narrow(s.test, env)
+            return self.join(self.block(s.body, et), self.block(s.orelse, ef))
+        if isinstance(s, ast.Return):
+            if s.value is None or not (isinstance(s.value, ast.Name) and s.value.id in self.new):
+                if s.value is not None and self.taint(s.value, env):
+                    self.findings.append(("shared", s, A.text(s.value)))
+                elif s.value is None:
+                    raise Undecided("returns nothing")
+                elif not isinstance(s.value, ast.Name):
+                    raise Undecided("returns %s" % A.text(s.value))
+            return env
+        if isinstance(s, (ast.Pass, ast.Import, ast.ImportFrom)):
+            return env
+        raise Undecided("statement %s" % type(s).__name__)
+
+    @staticmethod
+    def join(a, b):
+        out = dict(a)
+        for k, v in b.items():
+            out[k] = out.get(k, False) or v
+        return out
+
+    def decide(self):
+        self.block(self.f.body, {})
+        if not self.sinks:
+            raise Undecided("nothing is stored into the new object")
+        return self.findings
+
+
+_DEEPCOPY_EXAMPLES = {
+    "ok": """
+def __deepcopy__(self, memo):
+    new = object.__new__(type(self))
+    memo[id(self)] = new
+    for name, value in self.__dict__.items():
+        new.__dict__[name] = copy.deepcopy(value, memo)
+    return new
+""",
+    "ok-guard": """
+def __deepcopy__(self, memo):
+    dup = type(self).__new__(type(self))
+    memo[id(self)] = dup
+    for name, value in vars(self).items():
+        if isinstance(value, (str, int, type(None))):
+            setattr(dup, name, value)
+        else:
+            setattr(dup, name, copy.deepcopy(value, memo))
+    return dup
+""",
+    "shared": """
+def __deepcopy__(self, memo):
+    new = object.__new__(type(self))
+    memo[id(self)] = new
+    for name, value in self.__dict__.items():
+        if isinstance(value, (list, tuple)):
+            value = type(value)(copy.deepcopy(c, memo) if isinstance(c, Base) else c for c in value)
+        else:
+            value = copy.deepcopy(value, memo)
+        new.__dict__[name] = value
+    return new
+""",
+    "memo-late": """
+def __deepcopy__(self, memo):
+    new = object.__new__(type(self))
+    for name, value in self.__dict__.items():
+        new.__dict__[name] = copy.deepcopy(value, memo)
+    memo[id(self)] = new
+    return new
+""",
+}
+
+
+def deepcopy_selfcheck():
+    got = {}
+    for name, src in _DEEPCOPY_EXAMPLES.items():
+        try:
+            got[name] = sorted({k for k, _, _ in DeepcopyFlow(ast.parse(src).body[0]).decide()})
+        except Undecided as e:
+            got[name] = ["undecided: %s" % e]
+    want = {"ok": [], "ok-guard": [], "shared": ["shared"], "memo-late": ["memo-late"]}
+    return got == want, got
+
+
+def nested_container_classes(m):
+    """node classes whose match returns a tuple with a nested tuple/list literal among its elements: their `items` hold containers of nodes"""
+    base = m.key("Base", UTILS)
+    out = []
+    for k in sorted(m.classes):
+        if not m.issub(k, base) or "match" not in m.classes[k]["own"]:
+            continue
+        f = m.method(k, "match")
+        if f is None:
+            continue
+        CONT = (ast.Tuple, ast.List, ast.ListComp)
+        local = {}
+        for n in A.body_nodes(f.node):
+            if isinstance(n, ast.Assign) and len(n.targets) == 1 and isinstance(n.targets[0], ast.Name):
+                local.setdefault(n.targets[0].id, []).append(n.value)
+        for rt in A.returns(f.node):
+            if isinstance(rt.value, ast.Tuple) and any(isinstance(x, CONT) or (isinstance(x, ast.Name) and any(isinstance(v, CONT) for v in local.get(x.id, ())))
+                                                       for x in rt.value.elts):
+                out.append(m.classes[k]["name"])
+                break
+    return out
+
 
 def r3_no_custom_protocol(m):
     r = RuleResult("C18.R3", "no class of a tree overrides the copy/pickle protocol in a way that loses what the printers read or that its subclasses cannot follow")
@@ -257,6 +571,34 @@ def r3_no_custom_protocol(m):
                     r.error("%s defines __getstate__ in a form the rules of C18 cannot decide" % c["name"])
                 else:
                     r.ob(True, "%s.__getstate__ drops %s, none of which a printer reads" % (c["name"], sorted(lost)))
+            elif h == "__deepcopy__":
+                f = m.method(k, h)
+                ok_, got = deepcopy_selfcheck()
+                if not ok_:
+                    r.error("the examples of the __deepcopy__ analysis are no longer decided as recorded: %s" % got)
+                    continue
+                try:
+                    fl = DeepcopyFlow(f.node)
+                    found = fl.decide()
+                except Undecided as e:
+                    r.error("%s defines __deepcopy__ in a form the rules of C18 cannot decide (%s)" % (c["name"], e))
+                    continue
+                nested = nested_container_classes(m)
+                r.ob(not found, "%s.__deepcopy__: %d stores into the new object, %d memo-carrying deepcopy calls; %d node classes keep nested "
+                     "containers in items" % (c["name"], fl.sinks, fl.copies, len(nested)))
+                for kind, node, text in found:
+                    if kind == "shared":
+                        if not nested:
+                            r.error("%s.__deepcopy__ stores `%s` uncopied and no node class with nested containers was found" % (c["name"], text))
+                            continue
+                        r.fail("%s.__deepcopy__|shared" % c["name"], "%s.__deepcopy__ stores `%s` into the copy without deep-copying it: the value "
+                               "is only known not to be one of the tested types, and %d node classes (%s ...) keep nested tuples/lists of nodes "
+                               "in their items -- those containers and the nodes in them are shared between the original and the copy"
+                               % (c["name"], text, len(nested), ", ".join(nested[:4])), m.loc(f, node))
+                    else:
+                        r.fail("%s.__deepcopy__|memo-late" % c["name"], "%s.__deepcopy__ deep-copies state (`%s`) before registering the new "
+                               "object in the memo: every child's .parent leads back to this node, which is then copied again without end"
+                               % (c["name"], text), m.loc(f, node))
             else:
                 r.error("%s defines %s: an unrecognised copy protocol, the rules of C18 cannot decide it" % (c["name"], h))
     r.sample("no node class defines any of %s; printers read %s" % (COPY_HOOKS, sorted(pattrs)))
@@ -485,6 +827,7 @@ def r6_importable(m):
 TREE_WORLD = ("fparser.two", "fparser.common.readfortran", "fparser.common.sourceinfo", "fparser.common.splitline")
 IMMUTABLE_BUILTINS = {"int": int, "str": str, "float": float, "tuple": tuple, "bytes": bytes, "frozenset": frozenset, "complex": complex}
 PROTOCOL_OWN = {"__getnewargs__", "__getnewargs_ex__", "__reduce__", "__reduce_ex__"}
+MUTABLE_BUILTINS = {"dict": ("__setitem__",), "OrderedDict": ("__setitem__",), "list": ("append", "extend")}
 
 
 def hook_scan(tree):
@@ -537,10 +880,42 @@ def hook_scan(tree):
             if len([p_ for p_ in params if p_ not in A.param_defaults(f)]) > 1:
                 out.append((c, f, "builtin-new", "%s(%s).__new__ requires %d arguments but copy/pickle re-create it with the single plain %s value"
                             % (c.name, bb[0], len(params), bb[0])))
+        # (c) a dict/list subclass whose item-storing method reads instance state: pickle restores the items of such an object
+        #     (SETITEMS / APPENDS, through the overridden method) BEFORE its __dict__ (BUILD), and never calls __init__
+        mb = [b for b in bases if b in MUTABLE_BUILTINS]
+        if mb and not (PROTOCOL_OWN & set(own)):
+            for hname in MUTABLE_BUILTINS[mb[0]]:
+                f = own.get(hname)
+                if f is None:
+                    continue
+                me = f.args.args[0].arg if f.args.args else "self"
+                builtin = {"dict": dict, "list": list, "OrderedDict": dict}[mb[0]]
+                reads = [x for x in ast.walk(f) if isinstance(x, ast.Attribute) and isinstance(x.value, ast.Name) and x.value.id == me
+                         and isinstance(x.ctx, ast.Load) and not hasattr(builtin, x.attr) and x.attr not in own and x.attr not in class_level]
+                if reads:
+                    out.append((c, f, "builtin-items", "%s(%s).%s reads `%s.%s`: pickle.loads re-creates the object with %s.__new__, stores "
+                                "its items through %s and only then restores the instance attributes (__init__ is never called), so "
+                                "unpickling any tree whose reader items hold such an object raises AttributeError"
+                                % (c.name, mb[0], hname, me, reads[0].attr, c.name, hname)))
+                    break
     return seen, out
 
 
 _HOOK_POSITIVE = """
+class M(dict):
+    def __init__(self):
+        super().__init__()
+        self._order = []
+    def __setitem__(self, key, value):
+        self._order.append(key)
+        super().__setitem__(key, value)
+class N(dict):
+    count = 0
+    def __setitem__(self, key, value):
+        super().__setitem__(key, self.norm(value))
+    def norm(self, v):
+        return v
+
 class D:
     def __init__(self, item):
         self.item = item
@@ -564,11 +939,12 @@ class S(str):
 
 def r7_hooks(m):
     r = RuleResult("C18.R7", "no class that can be reached from a tree (nodes, reader items, readers, formats, split-line strings) has an "
-                             "attribute hook that reads instance state, or an immutable-builtin subclass whose __new__ cannot take the plain value: "
+                             "attribute hook that reads instance state, an immutable-builtin subclass whose __new__ cannot take the plain value, or a "
+                             "dict/list subclass whose item-storing method needs instance attributes (pickle stores the items first): "
                              "both make copy.deepcopy / pickle fail although parsing and printing work")
     r.floor = 400
     seen, out = hook_scan(ast.parse(_HOOK_POSITIVE))
-    if sorted((c.name, kind) for c, f, kind, msg in out) != [("D", "attr-hook"), ("L", "builtin-new")]:
+    if sorted((c.name, kind) for c, f, kind, msg in out) != [("D", "attr-hook"), ("L", "builtin-new"), ("M", "builtin-items")]:
         r.error("the positive example is no longer recognised: %s" % [(c.name, kind) for c, f, kind, msg in out])
         return r
     for path, (_, tree) in sorted(m.files.items()):
